@@ -669,6 +669,64 @@ fn d20() -> R {
     f.extend_from_slice(&foot);
     exercise(f, &[b"a", b"x", b"z"])
 }
+/// D21: every cached `Block` held a clone of the `Options`, and with it a strong reference to the block
+/// cache that holds the block: a reference cycle. A cache that had ever cached a block was never freed
+/// (nor were its blocks) after the last table handle and the last `Options` were dropped.
+fn d21() -> R {
+    let opt = Options::default().with_cache_capacity(4);
+    let weak = Arc::downgrade(&opt.block_cache);
+    {
+        let mut b = TableBuilder::new(opts(32, 2), Vec::new());
+        for i in 0..20u8 {
+            b.add(&[b'k', i], &[i; 9]).map_err(|e| format!("add: {:?}", e.code))?;
+        }
+        // the image is needed: build it again into a shared sink
+        drop(b);
+    }
+    let img = build_image(32, 2, 20);
+    let n = img.len();
+    {
+        let t = Table::new(opt.clone(), Box::new(img), n).map_err(|e| format!("open: {:?}", e.code))?;
+        let mut it = t.iter();
+        let mut seen = 0;
+        while it.advance() {
+            seen += 1;
+        }
+        if seen != 20 {
+            return Err(format!("scan saw {} entries", seen));
+        }
+        let _ = t.get(&[b'k', 3]);
+    }
+    // table and iterator are gone: only `opt` may still hold the cache
+    let holders = Arc::strong_count(&opt.block_cache);
+    drop(opt);
+    if weak.upgrade().is_some() {
+        return Err(format!("the block cache (and every block in it) is never freed: {} strong references remained after the table was dropped, and the cache is still alive after the last Options was dropped", holders));
+    }
+    Ok(())
+}
+fn build_image(bs: usize, ri: usize, n: u8) -> Vec<u8> {
+    use std::cell::RefCell;
+    use std::rc::Rc;
+    struct Sink(Rc<RefCell<Vec<u8>>>);
+    impl std::io::Write for Sink {
+        fn write(&mut self, b: &[u8]) -> std::io::Result<usize> {
+            self.0.borrow_mut().extend_from_slice(b);
+            Ok(b.len())
+        }
+        fn flush(&mut self) -> std::io::Result<()> {
+            Ok(())
+        }
+    }
+    let buf = Rc::new(RefCell::new(vec![]));
+    let mut b = TableBuilder::new(opts(bs, ri), Sink(buf.clone()));
+    for i in 0..n {
+        b.add(&[b'k', i], &[i; 9]).unwrap();
+    }
+    b.finish().unwrap();
+    let v = buf.borrow().clone();
+    v
+}
 
 // ---- format-inherent findings (open): expected to be VIOLATED, listed in known_findings.txt ------
 /// like raw_table, but every handle is shifted by `base` (the table will sit at offset `base` of a larger file)
@@ -878,6 +936,7 @@ const ALL: &[(&str, &str, fn() -> R)] = &[
     ("D19a-bloom-reader-512mib-filter", "C08", d19a),
     ("D19b-bloom-writer-2pow32-bits", "C09", d19b),
     ("D20-snappy-length-bomb", "C08", d20),
+    ("D21-cache-reference-cycle", "C11", d21),
     ("F1-embedded-table-prefix", "C15", f1),
     ("F2-crc-collision", "C07", f2),
     ("F3-footer-handles-swapped", "C07", f3),
